@@ -57,6 +57,14 @@ def cases(tier):
             add(op, [(1, 3, 4), (3, 1, 4)])
             add(op, [(2, 3, 3), (3, 2, 3)])
             add(op, [(1, 4, 3), (4, 1, 3)])
+    # in-place operators after the matrix has been observed
+    for op in ('add', 'sub', 'mul', 'matmul'):
+        add(op, [(2, 2, 2), (2, 2, 2)], inplace=True)
+        add(op, [(2, 2, 3), (2, 2, 1)], inplace=True)
+    add('pow', [(2, 2, 2)], k=2, inplace=True)
+    # subtrahend wider than the minuend (saturating subtraction uses the borrow of the wider width)
+    add('sub', [(1, 2, 2), (1, 2, 4)])
+    add('sub', [(2, 1, 1), (2, 1, 3)])
     # max_bits reached: results reduce modulo 2**max_bits
     add('add', [(2, 2, 3), (2, 2, 3)], max_bits=3, saturates_max_bits=True)
     add('mul', [(2, 2, 3), (2, 2, 3)], max_bits=4, saturates_max_bits=True)
